@@ -8,7 +8,7 @@ by `toF32` (used by the theorems about the ratio); the executable `generate` goe
 `Scalar` interface so that it can be compared bit for bit with the Rust code.
 -/
 
-namespace Random
+namespace Rng
 
 def modulus : Nat := 2 ^ 31 - 1
 def multiplier : Nat := 48271
@@ -101,4 +101,4 @@ def fill (g : Gen) (lo hi : α) (n : Nat) : Except Err (List α) :=
   | .ok (_, vs) => .ok vs
   | .error e => .error e
 
-end Random
+end Rng
